@@ -506,7 +506,7 @@ def run(ctx):
         "override weights are exact rationals (the float64 rounding of weight/total and of the cumulative sums is not modelled)",
         "ed25519 signing is represented by 'the signed copy decodes to this response and verifies' (checked by the driver with the real key)",
         "GenSharedKeys does not fail; GeoIP lookups at the station succeed; the station's own phantom derivation succeeds",
-        "the Go in-package driver (which wires a RegProcessor literal the way newRegProcessor does), the case generator and the emitter are trusted",
+        "the Go in-package driver (which builds the processor with the real NewRegProcessorNoAuth and drives the real API and DNS front ends), the case generator and the emitter are trusted",
     ]
     ctx.cov["trusted_base"] = [
         "Coq 8.16.1 kernel (coqc; coqchk in the thorough tier); vm_compute for evaluating the model on cases; no native_compute",
